@@ -1,0 +1,63 @@
+//go:build verif
+
+package s2
+
+// This file is compiled only with the build tag "verif". It exports thin
+// read-only wrappers needed by the history-independence harness (property
+// C13). It adds no behaviour.
+
+import (
+	"github.com/golang/geo/s1"
+)
+
+// VerifDistanceTarget names the unexported distanceTarget interface so that the
+// harness can hold targets of different concrete types in one variable.
+type VerifDistanceTarget = distanceTarget
+
+// VerifEdgeQueryOpts reads the options currently held by the query object.
+func VerifEdgeQueryOpts(e *EdgeQuery) (maxResults int, distanceLimit, maxError s1.ChordAngle, includeInteriors, useBruteForce bool) {
+	o := e.opts
+	return o.maxResults, o.distanceLimit, o.maxError, o.includeInteriors, o.useBruteForce
+}
+
+// VerifFindEdge exposes EdgeQuery.findEdge with the query's own options.
+func VerifFindEdge(e *EdgeQuery, target distanceTarget) EdgeQueryResult {
+	return e.findEdge(target, e.opts)
+}
+
+// VerifMaxBruteForceIndexSize exposes distanceTarget.maxBruteForceIndexSize.
+func VerifMaxBruteForceIndexSize(target distanceTarget) int {
+	return target.maxBruteForceIndexSize()
+}
+
+// VerifTrackerOrigin exposes trackerOrigin.
+func VerifTrackerOrigin() Point { return trackerOrigin() }
+
+// VerifShapeTracked reports whether the interior tracker would start inside
+// the given shape (the shape has an interior containing the tracker origin).
+func VerifShapeTracked(shape Shape) bool {
+	return shape.Dimension() == 2 && containsBruteForce(shape, trackerOrigin())
+}
+
+// VerifIndexCellShapes lists the clipped shapes of an index cell: shape id,
+// number of clipped edges and the containsCenter flag of each.
+func VerifIndexCellShapes(c *ShapeIndexCell) (shapeIDs []int32, numEdges []int, containsCenter []bool) {
+	if c == nil {
+		return nil, nil, nil
+	}
+	for _, cs := range c.shapes {
+		if cs == nil {
+			shapeIDs = append(shapeIDs, -1)
+			numEdges = append(numEdges, -1)
+			containsCenter = append(containsCenter, false)
+			continue
+		}
+		shapeIDs = append(shapeIDs, cs.shapeID)
+		numEdges = append(numEdges, len(cs.edges))
+		containsCenter = append(containsCenter, cs.containsCenter)
+	}
+	return
+}
+
+// VerifIndexPendingAdditionsPos reads ShapeIndex.pendingAdditionsPos.
+func VerifIndexPendingAdditionsPos(s *ShapeIndex) int32 { return s.pendingAdditionsPos }
